@@ -70,8 +70,9 @@ theorem C12_flat (sub : Sub) (sc : Script) (cfg : Cfg)
     obtain ⟨sa, ea, _⟩ := mayLoop_det sub sc cfg hR hC hD ⟨m, tag⟩ cs s hok
     refine ⟨cs.any (passes sc), sa, by simp [canTrigger, hmN, hst, hsd, hev, hc, ea], ?_⟩
     -- the trigger: prepare_event, the candidate loop, finalize
-    obtain ⟨s1, e1, _⟩ := callbacks_frame sub sc hR hC .prepareEvent ⟨m, tag⟩ cfg.prepareEvent s
+    obtain ⟨s1, e1, f01⟩ := callbacks_frame sub sc hR hC .prepareEvent ⟨m, tag⟩ cfg.prepareEvent s
     obtain ⟨s2, e2⟩ := tryTransitions_det sub sc cfg hR hC hD ⟨m, tag⟩ cs s1 hok
+      (by rw [‹Frame s s1›.stateOf]; show (cfg.state? (s.stateOf m)).isSome; rw [hst]; exact hreg)
     obtain ⟨s3, e3, _⟩ := callbacks_frame sub sc hR hC .finalize ⟨m, tag⟩ cfg.finalize s2
     have htr : triggerByName sub sc cfg qmax m ev tag s = .ok (cs.any (passes sc)) s3 := by
       simp [triggerByName, hmN, hev, machineProcess, hq, hidle, eventTrigger, hst, hsd, hc, eventProcess, e1,
